@@ -440,18 +440,25 @@ func (p *Proxy) handleConnectRequest(ctx *Context, req *http.Request, session *S
 	var cbw io.Writer = cconn
 	cbr := bufio.NewReader(cconn)
 
-	copySync := func(w io.Writer, r io.Reader, donec chan<- bool) {
+	copySync := func(w io.Writer, r io.Reader, dst net.Conn, donec chan<- bool) {
 		if _, err := io.Copy(w, r); err != nil && err != io.EOF {
 			log.Errorf("martian: failed to copy CONNECT tunnel: %v", err)
 		}
+
+		// This direction is finished: pass the end of stream on to dst now,
+		// it must not have to wait until the other direction ends too.
+		if f, ok := w.(interface{ Flush() error }); ok {
+			f.Flush()
+		}
+		closeWrite(dst)
 
 		log.Debugf("martian: CONNECT tunnel finished copying")
 		donec <- true
 	}
 
 	donec := make(chan bool, 2)
-	go copySync(cbw, brw, donec)
-	go copySync(brw, cbr, donec)
+	go copySync(cbw, brw, cconn, donec)
+	go copySync(brw, cbr, conn, donec)
 
 	log.Debugf("martian: established CONNECT tunnel, proxying traffic")
 	<-donec
@@ -459,6 +466,20 @@ func (p *Proxy) handleConnectRequest(ctx *Context, req *http.Request, session *S
 	log.Debugf("martian: closed CONNECT tunnel")
 
 	return errClose
+}
+
+// closeWrite shuts down the writing side of c so that its peer reads
+// end-of-stream after everything written so far, while c can still be read.
+// A connection that cannot be half-closed is closed.
+func closeWrite(c net.Conn) {
+	if pc, ok := c.(*peekedConn); ok {
+		c = pc.Conn
+	}
+	if cw, ok := c.(interface{ CloseWrite() error }); ok {
+		cw.CloseWrite()
+		return
+	}
+	c.Close()
 }
 
 func (p *Proxy) handle(ctx *Context, conn net.Conn, brw *bufio.ReadWriter) error {
